@@ -183,6 +183,8 @@ inline bool classify_exception(std::exception& e, Outcome& o) {
   return false;
 }
 
+static Ctx* g_ctx = 0;                     // context of the running case (crash diagnostics in replay mode)
+
 // per-case reset of oracle budgets (overridable by defining VF_CASE_BEGIN before including common.hh)
 inline void case_begin_hook() {
 #ifdef VF_CASE_BEGIN
@@ -191,7 +193,7 @@ inline void case_begin_hook() {
 }
 
 inline Outcome run_one(const std::vector<uint32_t>& tape, bool verbose = false) {
-  Outcome o; Ctx c(tape); c.verbose = verbose;
+  Outcome o; Ctx c(tape); c.verbose = verbose; g_ctx = &c;
   fired_asserts().clear();
   case_begin_hook();
   try { vf_case(c); }
@@ -206,6 +208,7 @@ inline Outcome run_one(const std::vector<uint32_t>& tape, bool verbose = false) 
   o.asserts = fired_asserts();
   if (o.kind == Outcome::FAIL && !o.asserts.empty()) { o.msg += "  [internal assertions fired first: "; for (size_t i = 0; i < o.asserts.size() && i < 3; ++i) o.msg += (i ? "; " : "") + o.asserts[i]; o.msg += "]"; }
   o.log = c.log.str(); o.used = c.t.used; o.nontrivial = c.nontrivial; o.tags = c.tags;
+  g_ctx = 0;
   return o;
 }
 
@@ -299,6 +302,7 @@ inline void write_partial(const std::string& path, const std::string& status, co
 static std::vector<uint32_t> g_current;   // tape being executed
 static char g_failout[512];
 inline void crash_handler(int sig) {
+  if (g_ctx && g_ctx->verbose) { std::string l = g_ctx->log.str(); if (::write(2, l.data(), l.size()) < 0) {} }
   if (g_failout[0]) {
     int fd = ::open(g_failout, O_WRONLY | O_CREAT | O_TRUNC, 0644);
     if (fd >= 0) {
